@@ -77,7 +77,7 @@ impl Rec {
 	pub fn finish(mut self) {
 		self.ops.flush().unwrap(); self.imp.flush().unwrap();
 		let mut f = File::create(self.dir.join(format!("{}.stats.json", self.model))).unwrap();
-		let esc = |s: &str| s.replace('\\', "\\\\").replace('"', "\\\"");
+		let esc = |s: &str| s.chars().map(|c| if c.is_control() { ' ' } else { c }).collect::<String>().replace('\\', "\\\\").replace('"', "\\\"");
 		let classes: Vec<String> = self.classes.iter().map(|(k, v)| format!("\"{}\": {}", esc(k), v)).collect();
 		let mut samples: Vec<String> = vec![];
 		for (_, v) in self.samples.iter() { for s in v { if samples.len() < 24 { samples.push(format!("\"{}\"", esc(s))); } } }
